@@ -112,7 +112,19 @@ pub fn out(msg: &str) {
     let _ = o.flush();
 }
 
+static ABORT_ON_DIE: AtomicBool = AtomicBool::new(false);
+
+/// in-process fuzz targets: a verdict of the scheduler (deadlock, budget) must end in abort()
+/// so that libFuzzer keeps the input; the marker line says which one it was
+pub fn set_abort_on_die(on: bool) {
+    ABORT_ON_DIE.store(on, Ordering::SeqCst);
+}
+
 pub fn exit(code: i32) -> ! {
+    if ABORT_ON_DIE.load(Ordering::SeqCst) {
+        eprintln!("{}", if code == 2 { "MAYVERIF-BUDGET" } else { "MAYVERIF-VIOLATION scheduler-verdict" });
+        std::process::abort();
+    }
     unsafe { libc::_exit(code) }
 }
 
